@@ -105,11 +105,104 @@ def gen(ctx, deep):
     return jobs
 
 
+U2 = [["alice", "read"], ["bob", "read"], ["alice", "write"], ["carol", "read"]]
+
+
+def _p2_case(args):
+    """a model with a SECOND policy definition (p2 = sub, act): management calls on p2 through the recording faithful
+    adapter; after every call the adapter's p2 rows must be memory's p2 rules, and a call that returns False must not
+    have talked to the adapter (implementation side: the Lean enforcer model has the sections p, g, g2)"""
+    is_async, init_p, init_p2, script = args
+    casbin = common.use_repo()
+    import policy_corr as pc
+
+    ad = ec.make_adapter(casbin, {"p": init_p, "g": [], "g2": []}, is_async=is_async)
+    run = ec.run_async if is_async else (lambda x: x)
+    if is_async:
+        e = casbin.AsyncEnforcer(casbin.AsyncEnforcer.new_model(text=pc.ACL), ad)
+        run(e.load_policy())
+    else:
+        e = casbin.Enforcer(casbin.Enforcer.new_model(text=pc.ACL), ad)
+    if init_p2:
+        run(e.add_named_policies("p2", [list(r) for r in init_p2]))
+    out = []
+    for op in script:
+        n0 = len(ad.log)
+        try:
+            if op[0] == "add":
+                ret = run(e.add_named_policy("p2", *op[1]))
+            elif op[0] == "remove":
+                ret = run(e.remove_named_policy("p2", *op[1]))
+            elif op[0] == "addmany":
+                ret = run(e.add_named_policies("p2", [list(r) for r in op[1]]))
+            elif op[0] == "removemany":
+                ret = run(e.remove_named_policies("p2", [list(r) for r in op[1]]))
+            elif op[0] == "removefiltered":
+                ret = run(e.remove_filtered_named_policy("p2", op[1], *op[2]))
+            elif op[0] == "update":
+                ret = run(e.update_named_policy("p2", list(op[1]), list(op[2])))
+            elif op[0] == "updatemany":
+                ret = run(e.update_named_policies("p2", [list(r) for r in op[1]], [list(r) for r in op[2]]))
+            elif op[0] == "updatefiltered":
+                ret = run(e.update_filtered_named_policies("p2", [list(r) for r in op[1]], op[2], *op[3]))
+            else:
+                raise common.Infra("unknown op " + repr(op))
+            ret = bool(ret) if not isinstance(ret, list) else (True if ret else False)
+        except common.Infra:
+            raise
+        except Exception as ex:  # noqa
+            ret = "!" + type(ex).__name__
+        out.append({"ret": ret, "mem": [list(r) for r in e.get_named_policy("p2")], "store": [list(r) for r in ad.store.get("p2", [])], "mem_p": [list(r) for r in e.get_policy()], "store_p": [list(r) for r in ad.store.get("p", [])],
+                    "talked": [str(x) for x in ad.log[n0:]]})
+    return out
+
+
+def second_definition_stream(ctx, res, deep):
+    rng = ctx["rng"]
+    ops = []
+    for r in U2:
+        ops += [("add", r), ("remove", r)]
+    ops += [("addmany", [U2[0], U2[1]]), ("addmany", [U2[2], U2[2]]), ("removemany", [U2[0], U2[1]]), ("removemany", [U2[1], U2[1]]), ("removefiltered", 1, ["read"]), ("removefiltered", 0, ["alice"]),
+            ("update", U2[0], U2[3]), ("update", U2[0], U2[1]), ("updatemany", [U2[0], U2[1]], [U2[2], U2[3]])]
+    # filtered update: the new rules are absent / held inside the selection / held OUTSIDE the selection (refused) / also held by p
+    for new in ([U2[3]], [U2[1]], [U2[0]], [U2[2], U2[3]], []):
+        ops += [("updatefiltered", new, 0, ["alice"]), ("updatefiltered", new, 1, ["read"])]
+    P3 = [["alice", "data1", "read"], ["bob", "read", "x"]]
+    jobs = []
+    for is_async in (False, True):
+        for init_p2 in ([], U2[:2], U2[:3], U2):
+            for a in ops:
+                jobs.append((is_async, P3, init_p2, [a]))
+        for _ in range(60 if not deep else 600):
+            jobs.append((is_async, P3, rng.sample(U2, rng.randint(0, 4)), [rng.choice(ops) for _ in range(rng.randint(2, 5))]))
+    for job in jobs:
+        is_async, init_p, init_p2, script = job
+        out = _p2_case(job)
+        res.nontrivial.add(hash(("p2", repr(job))))
+        for i, rec in enumerate(out):
+            res.evaluations += 1
+            res.count("stream:p2:" + script[i][0])
+            what = None
+            key = lambda l: sorted(map(tuple, l))  # noqa
+            if key(rec["mem"]) != key(rec["store"]) or len(rec["mem"]) != len(rec["store"]):
+                what = f"memory holds the p2 rules {rec['mem']}, the adapter's store {rec['store']}"
+            elif key(rec["mem_p"]) != key(rec["store_p"]):
+                what = f"memory holds the p rules {rec['mem_p']}, the adapter's store {rec['store_p']}"
+            elif rec["ret"] is False and rec["talked"]:
+                what = f"the call returned False and yet told the adapter {rec['talked']}"
+            if what:
+                res.violation({"signature": f"C09:p2:{script[i][0]}{':async' if is_async else ''}", "stream": "p2", "job": [is_async, init_p, init_p2, [list(o) for o in script[: i + 1]]],
+                               "what": f"model with p and p2, {'AsyncEnforcer' if is_async else 'Enforcer'}, p2 = {init_p2}: after {[list(o) for o in script[: i + 1]]} (result {rec['ret']}) {what}",
+                               "expected": "store = memory", "observed": what})
+                break
+
+
 def run(ctx):
     res = common.Result()
     stages = [False] if not ctx["deep"] else ([True] if ctx["proof_ok"] else [False, True])
     for deep in stages:
         ec.run_configs(res, gen(ctx, deep), judge_factory(), fresh_oracle=False)
+        second_definition_stream(ctx, res, deep)
         if res.spec_violations:
             break
     res.rule = (
@@ -123,6 +216,11 @@ def run(ctx):
 
 
 def replay(obj):
+    if obj.get("stream") == "p2":
+        j = obj["job"]
+        rec = _p2_case((j[0], j[1], j[2], [tuple(o) for o in j[3]]))[-1]
+        key = lambda l: sorted(map(tuple, l))  # noqa
+        return key(rec["mem"]) != key(rec["store"]) or key(rec["mem_p"]) != key(rec["store_p"]) or (rec["ret"] is False and bool(rec["talked"]))
     case = obj["case"]
     c = case["config"]
     cfg = ec.Config(c["shape"], adapter=c["adapter"], watcher=c["watcher"], initial=c["initial"], is_async=c.get("async", False), late=c.get("late", False))
